@@ -62,12 +62,19 @@ func dec(s string) string {
 }
 
 func msgFor(t, id, v string) nodeenrollment.MessageWithId {
+	raw := v
 	v = enc(v)
+	// besides the scalar that names the value, every stored message carries a repeated field (where the type has one), so
+	// that a load that MERGES into its destination instead of replacing it shows
+	var bundles []*types.CertificateBundle
+	if raw != "" {
+		bundles = []*types.CertificateBundle{{CertificateDer: []byte("der-" + raw)}}
+	}
 	switch t {
 	case "ni":
-		return &types.NodeInformation{Id: id, WrappingKeyId: v}
+		return &types.NodeInformation{Id: id, WrappingKeyId: v, CertificateBundles: bundles}
 	case "nc":
-		return &types.NodeCredentials{Id: id, WrappingKeyId: v}
+		return &types.NodeCredentials{Id: id, WrappingKeyId: v, CertificateBundles: bundles}
 	case "rc":
 		return &types.RootCertificates{Id: id, WrappingKeyId: v}
 	case "tk":
@@ -76,6 +83,33 @@ func msgFor(t, id, v string) nodeenrollment.MessageWithId {
 		return &types.RootCertificate{Id: id}
 	}
 	return (*types.NodeInformation)(nil)
+}
+
+// dirtyFor is a destination that was used before: same type, the requested id, other content in every other field
+func dirtyFor(t, id string) nodeenrollment.MessageWithId {
+	switch t {
+	case "ni":
+		return &types.NodeInformation{Id: id, WrappingKeyId: "stale", RegistrationNonce: []byte("stale"), CertificateBundles: []*types.CertificateBundle{{CertificateDer: []byte("stale")}}}
+	case "nc":
+		return &types.NodeCredentials{Id: id, WrappingKeyId: "stale", RegistrationNonce: []byte("stale"), CertificateBundles: []*types.CertificateBundle{{CertificateDer: []byte("stale")}}}
+	case "rc":
+		return &types.RootCertificates{Id: id, WrappingKeyId: "stale", Current: &types.RootCertificate{Id: "stale"}}
+	case "tk":
+		return &types.ServerLedActivationToken{Id: id, WrappingKeyId: "stale", CreationTimeMarshaled: []byte("stale")}
+	}
+	return msgFor(t, id, "")
+}
+
+// valOfExact: the value name, provided the message is EXACTLY what storing that value stored
+func valOfExact(t, id string, m nodeenrollment.MessageWithId) string {
+	v := valOf(m)
+	if v == "absent" {
+		return v
+	}
+	if !proto.Equal(m, msgFor(t, id, v)) {
+		return "corrupt"
+	}
+	return v
 }
 
 func valOf(m nodeenrollment.MessageWithId) string {
@@ -165,9 +199,12 @@ func exec(ctx context.Context, st nodeenrollment.Storage, op map[string]any) (re
 			err = st.Load(ctx, nil)
 		} else {
 			m := msgFor(t, id, "")
+			if d, _ := op["dirty"].(bool); d {
+				m = dirtyFor(t, id)
+			}
 			err = st.Load(ctx, m)
 			if err == nil {
-				val = valOf(m)
+				val = valOfExact(t, id, m)
 			}
 		}
 	case "Remove":
